@@ -251,7 +251,7 @@ func (c *Ctx) ArgIs(fn *ssa.Function, spec string, idx int, glob string, min int
 			continue
 		}
 		s := CanonD(v, 9)
-		if Glob(glob, s) {
+		if globAny(glob, s) {
 			c.OK("K11", fnName, what, c.At(ci), why)
 		} else {
 			c.Fail("K11", fnName, what, c.At(ci), "provenance is `"+short(s, 300)+"` ("+why+")")
